@@ -737,3 +737,77 @@ func (w *World) accumulates(g *FG, ret ssa.Value, A []bool) bool {
 	walk(ret)
 	return ok
 }
+
+// pathClass partitions the paths that lead to a node by the comma-ok type assertions they passed:
+// one class per assertion whose success edge can reach the node (the paths continuing from that
+// edge) and one class for the paths that avoid every such success edge. A finding keyed by its class
+// does not depend on how branches share or duplicate their tails.
+type pathClass struct {
+	desc   string
+	starts []int
+	cut    map[Edge]bool
+}
+
+func pathClasses(w *World, g *FG, n int) []pathClass {
+	byDesc := map[string][]Edge{}
+	var order []string
+	all := map[Edge]bool{}
+	for i, in := range g.ins {
+		iff, ok := in.(*ssa.If)
+		if !ok {
+			continue
+		}
+		ex, ok := iff.Cond.(*ssa.Extract)
+		if !ok || ex.Index != 1 {
+			continue
+		}
+		ta, ok := ex.Tuple.(*ssa.TypeAssert)
+		if !ok || !ta.CommaOk {
+			continue
+		}
+		e, ok := g.EdgeOf(i, true)
+		if !ok {
+			continue
+		}
+		d := w.pathOf(iff.Cond)
+		if _, seen := byDesc[d]; !seen {
+			order = append(order, d)
+		}
+		byDesc[d] = append(byDesc[d], e)
+		all[e] = true
+	}
+	var out []pathClass
+	if g.reach(g.entry(), nil, all)[n] {
+		out = append(out, pathClass{desc: "", starts: g.entry(), cut: all})
+	}
+	for _, d := range order {
+		var starts []int
+		for _, e := range byDesc[d] {
+			starts = append(starts, e.to)
+		}
+		if g.reach(starts, nil, nil)[n] {
+			out = append(out, pathClass{desc: d, starts: starts})
+		}
+	}
+	return out
+}
+
+// before: on every path of the class, one of the A nodes is passed before n.
+func (c pathClass) before(g *FG, A []bool, n int) bool {
+	if A[n] {
+		return true
+	}
+	return !g.reach(c.starts, A, c.cut)[n]
+}
+
+// onlyVia: every path of the class to n crosses one of the edges.
+func (c pathClass) onlyVia(g *FG, edges []Edge, n int) bool {
+	cut := map[Edge]bool{}
+	for e := range c.cut {
+		cut[e] = true
+	}
+	for _, e := range edges {
+		cut[e] = true
+	}
+	return !g.reach(c.starts, nil, cut)[n]
+}
